@@ -40,11 +40,12 @@ TrHMatch ==
   /\ Ev.ev = "hmatch" /\ UNCHANGED HR
   /\ LET h == NormHost(Ev.host)
          r == HostsMatch(HR, Ev.host)
-         canon == HR.addOnly \/ WitValid(HR, Ev.wit, Ev.wps, h)
+         ascii == AllIn(Ev.host, Printable)
+         canon == ascii /\ (HR.addOnly \/ WitValid(HR, Ev.wit, Ev.wps, h))
      IN /\ Check("C05", Ev.res = "ok", <<"Hosts.Match fault", Ev.host>>)
         /\ Check("C14", canon => (Ev.ok = r.ok /\ (Ev.ok => \E o \in r.outs : o[2] = Ev.params)),
                  <<"hosts match", Ev.host, h, "got", Ev.ok, Ev.params, "want", r.ok, SetSeq(r.outs)>>)
-        /\ Check("C14", Ev.ok => \E p \in Live(HR) : DOMAIN Ev.params = CapNames(HR.tab[p].atoms) /\ Fits(HR.cfg.icpt, HR.tab[p].atoms, 1, h, Ev.params),
+        /\ Check("C14", (ascii /\ Ev.ok) => \E p \in Live(HR) : DOMAIN Ev.params = CapNames(HR.tab[p].atoms) /\ Fits(HR.cfg.icpt, HR.tab[p].atoms, 1, h, Ev.params),
                  <<"hosts match unsound", Ev.host, h, Ev.params>>)
         /\ Check("C14", ~Ev.ok => Ev.params = <<>>, <<"rejecting Hosts leaves parameters", Ev.host, Ev.params>>)
 
